@@ -137,10 +137,47 @@ class Stats(object):
         }
 
 
+class CaseTimeout(Exception):
+    pass
+
+
+_CALLS = {'n': 0}
+# generous per-case wall limits (a case normally takes milliseconds): the first calls of a process include numba / TorchScript compilation
+CASE_LIMIT_FIRST = int(os.environ.get('VERIF_CASE_LIMIT_FIRST', '600'))
+CASE_LIMIT = int(os.environ.get('VERIF_CASE_LIMIT', '60'))
+
+
+def _alarm(signum, frame):
+    raise CaseTimeout('case did not finish within the per-case limit (infinite loop / runaway growth in the code under test?)')
+
+
+def guarded(fn, *args):
+    """call fn(*args) under a SIGALRM watchdog so that a hang in the code under test becomes an exception attached to the case."""
+    import signal
+    _CALLS['n'] += 1
+    limit = CASE_LIMIT_FIRST if _CALLS['n'] <= 200 else CASE_LIMIT
+    try:
+        old = signal.signal(signal.SIGALRM, _alarm)
+    except ValueError:          # not in the main thread
+        return fn(*args)
+    signal.alarm(limit)
+    try:
+        return fn(*args)
+    finally:
+        signal.alarm(0)
+        signal.signal(signal.SIGALRM, old)
+
+
 def _call(facet, case, stats):
     """run facet.fn on a case; returns None if ok / known, or (sig,msg,trace) on failure."""
     try:
-        info = facet.fn(case)
+        info = guarded(facet.fn, case)
+    except CaseTimeout as e:
+        stats.evals += 1
+        return ('hang', str(e), '')
+    except MemoryError as e:
+        stats.evals += 1
+        return ('exception:MemoryError', repr(e), '')
     except Known as e:
         stats.evals += 1
         stats.add_known(e.key, case, e.msg)
